@@ -33,10 +33,13 @@ import (
 	"fmt"
 	"log/slog"
 	"os"
+	"runtime"
+	"sync"
 	"testing"
 
 	"github.com/gmrtd/gmrtd/cryptoutils"
 	"github.com/gmrtd/gmrtd/iso7816"
+	"github.com/gmrtd/gmrtd/tlv"
 	"pgregory.net/rapid"
 
 	"verifharness/evid"
@@ -60,6 +63,120 @@ func TestAASelfTest(t *testing.T) {
 	if err := sm.SelfTest(); err != nil {
 		evid.Infra(t, "reference self-test failed: %v", err)
 	}
+}
+
+// ---------------------------------------------------------------- resource guard
+//
+// gmrtd's TLV reader allocates the CLAIMED length of a data object before it
+// looks at how many bytes are left (finding F7 of C12: 84 7f ff ff ff => 2 GiB).
+// A mutated length octet therefore costs up to 4 GiB of address space and a GC
+// cycle per presented response, which makes eight parallel shards crawl.  That
+// is C12's subject, not C03's.  While the library behaves like that (decided
+// by a deterministic probe of bytes allocated), responses in which some data
+// object on the library's parse path claims more than hugeClaim bytes beyond
+// what is left are presented only hugeBudget times per process (never above
+// hugeNever); the rest is counted and skipped.  Such a response cannot be accepted by any TLV reader.
+
+const hugeClaim = 256 << 10
+const hugeBudget = 4
+const hugeNever = 64 << 20 // claims above this are never presented while the guard is on
+
+var (
+	guardOnce   sync.Once
+	guardActive bool
+	hugeMu      sync.Mutex
+	hugeSeen    int
+)
+
+func guardOn() bool {
+	guardOnce.Do(func() {
+		var a, b runtime.MemStats
+		runtime.ReadMemStats(&a)
+		tlv.Decode([]byte{0x87, 0x83, 0x20, 0x00, 0x00, 0x01}) // claims 2 MiB, holds 1 byte
+		runtime.ReadMemStats(&b)
+		guardActive = b.TotalAlloc-a.TotalAlloc > 1<<20
+	})
+	return guardActive
+}
+
+// maxOverclaim walks b the way a BER-TLV reader does and returns the claimed
+// length of the first data object that claims more than is left (0 if none).
+func maxOverclaim(b []byte, depth int) int {
+	for i := 0; i < len(b) && depth < 60; {
+		t0 := b[i]
+		i++
+		tagLen := 1
+		if t0&0x1F == 0x1F {
+			for {
+				if i >= len(b) || tagLen >= 4 {
+					return 0
+				}
+				c := b[i]
+				i++
+				tagLen++
+				if c&0x80 == 0 {
+					break
+				}
+			}
+		}
+		if i >= len(b) {
+			return 0
+		}
+		l := int(b[i])
+		i++
+		switch {
+		case l == 0x80:
+			if t0&0x20 == 0 {
+				return 0
+			}
+			return maxOverclaim(b[i:], depth+1)
+		case l > 0x84:
+			return 0
+		case l > 0x80:
+			k := l - 0x80
+			if i+k > len(b) {
+				return 0
+			}
+			l = 0
+			for j := 0; j < k; j++ {
+				l = l<<8 | int(b[i+j])
+			}
+			i += k
+		}
+		if t0 == 0 && tagLen == 1 && l == 0 {
+			return 0
+		}
+		if l > len(b)-i {
+			return l
+		}
+		if t0&0x20 != 0 {
+			if c := maxOverclaim(b[i:i+l], depth+1); c > 0 {
+				return c
+			}
+		}
+		i += l
+	}
+	return 0
+}
+
+// admit says whether the response is presented (true) or skipped by the guard.
+func admit(r []byte) bool {
+	if !guardOn() || len(r) < 3 {
+		return true
+	}
+	claim := maxOverclaim(r[:len(r)-2], 0)
+	if claim <= hugeClaim {
+		return true
+	}
+	hugeMu.Lock()
+	defer hugeMu.Unlock()
+	hugeSeen++
+	if hugeSeen <= hugeBudget && claim <= hugeNever {
+		evid.Count("huge-length-claim-presented", 1)
+		return true
+	}
+	evid.Count("huge-length-claim-skipped(C12-F7-guard)", 1)
+	return false
 }
 
 // ---------------------------------------------------------------- presenting one response
@@ -754,6 +871,9 @@ func (w *world) adversarialExchange() (delivered present, wasErr bool) {
 			if bytes.Equal(v.r, g) {
 				continue
 			}
+			if !admit(v.r) {
+				continue
+			}
 			p := mk(v)
 			record(v.class, v.r, w, len(data), v.pos)
 			if msg := checkPresent(p); msg != "" {
@@ -776,7 +896,7 @@ func (w *world) adversarialExchange() (delivered present, wasErr bool) {
 		} else {
 			pick = vs[rapid.IntRange(0, len(vs)-1).Draw(rt, "deliver-idx")]
 		}
-		if bytes.Equal(pick.r, g) {
+		if bytes.Equal(pick.r, g) || (guardOn() && len(pick.r) > 2 && maxOverclaim(pick.r[:len(pick.r)-2], 0) > hugeClaim) {
 			pick = variant{"unprotected-sw-only", 0, swb(sw), true}
 		}
 		delivered = mk(pick)
@@ -925,6 +1045,9 @@ func TestExamplesEverySubstitution(t *testing.T) {
 		p := present{Alg: string(k.cipher), KEnc: k.kenc, KMac: k.kmac, SSC: k.ssc, HasGenuine: true, GenRsp: hex.EncodeToString(g), GenData: data, GenSW: k.sw,
 			ModelSSC: hex.EncodeToString(sm.SSCPlus(unhex(k.ssc), 1))}
 		try := func(class string, pos int, r []byte, must bool) {
+			if !admit(r) {
+				return
+			}
 			q := p
 			q.Class, q.Pos, q.Rsp, q.MustErr = class, pos, hex.EncodeToString(r), must
 			evid.Case("example-"+class, true, fmt.Sprintf("%d|%d|%x", ki, pos, r[:min(len(r), 4)]), nil)
